@@ -23,7 +23,12 @@
     A fourth part on sessions with DRA objects ([claims_monitor]): the restore and
     erasure clauses on the CLAIMS dump (every pod's ResourceClaimInfo, the
     plugin's view of every claim), and the correspondence of the claim model
-    (Model/SessionClaims.v) with that dump after every command. *)
+    (Model/SessionClaims.v) with that dump after every command.
+    [KSolve]: one run of the scenario solver the actions use (solvers.NewJobsSolver(...).Solve, constructed as
+    preempt / reclaim / consolidation construct it) on a real session, with its RESULT: solved or not, the victims
+    it reports, the projection of the session before Solve, after Solve and after the Commit of the statement it
+    returned, the Cache calls of that Commit - and the same for the reported scenario applied by hand, through a
+    fresh Statement, on a second identically built session ([solve_monitor], section "Solver level" below). *)
 From KaiV Require Export Run.Cycle Model.Session Model.SessionSpec Model.SessionErase Model.SessionClaims.
 Open Scope Z_scope.
 
@@ -69,7 +74,31 @@ Record erun := mkER {
 Record pcase := mkPC {
   k_init : sess; k_fails : list nat; k_wf : bool; k_dump0 : odump; k_steps : list ostep; k_erase : option erun;
   k_cinit : cinit; k_cdump0 : cdump }.
-Inductive case := KProg (k : pcase) | KCycle (k : ccase).
+(** one run of the scenario solver on a real session.
+    [sc_tries]: the Solve calls that reported no solution, in the action's job order (the action goes on to the next
+    pending job): job, what the call returned as victim names, the session after the call.
+    [sc_sol]: the first call that reported a solution: the pending job, the victims it reported; the session after
+    Solve and before Commit ([sl_pre]), the Cache calls of the Commit, the session after it; then the REPORTED
+    SCENARIO APPLIED BY HAND on a second session built from the same cluster: the commands (Evict of every reported
+    victim, in the reported order; Pipeline of every pod the solver's statement left nominated, onto the node and GPU
+    groups the solver chose, in the order of the statement), the session before Commit, the calls, the session after.
+    [sl_stray]: pods that an abandoned simulation attempt of this call had evicted and that are no reported victims
+    (read off the primitive events of the simulation; coverage only). *)
+Record stry := mkST { st_job : positive; st_victims : list positive; st_dump : odump }.
+Record ssol := mkSL {
+  sl_job : positive; sl_victims : list positive;
+  sl_pre : xfinal; sl_calls : list xcall; sl_post : odump;
+  sl_hand : list cmd; sl_hpre : xfinal; sl_hcalls : list xcall; sl_hpost : odump;
+  sl_stray : list positive }.
+Record scase := mkSC { sc_k : pcase; sc_tries : list stry; sc_sol : option ssol }.
+(** one run of a real action (preempt / reclaim / consolidation Execute) end to end: per Commit the projection of the
+    session taken at its first Cache call (the session the whole statement left; nothing of the Commit applied yet)
+    and its calls; the same for the committed operations - and only them - replayed by hand on a second session (per
+    commit: Evict of every pod sent to Cache.Evict, Pipeline of every pod sent to TaskPipelined, in call order,
+    Commit); the two final sessions *)
+Record acommit := mkAC { ac_pre : odump; ac_calls : list xcall; ac_hand : list cmd; ac_hpre : odump; ac_hcalls : list xcall }.
+Record acase := mkAK { ak_k : pcase; ak_commits : list acommit; ak_final : odump; ak_hfinal : odump }.
+Inductive case := KProg (k : pcase) | KCycle (k : ccase) | KSolve (k : scase) | KAction (k : acase).
 
 Definition resolve (prev : odump) (st : ostep) : odump :=
   mkOD (map (fun kv => (fst kv, match snd kv with
@@ -727,10 +756,177 @@ Definition cycle_once (k : ccase) : bool :=
   evict_once_go [] (c_calls k) && nodup_posb (map (fun b => fst (fst b)) (bound_calls k))
   && pipe_once_go [] (c_calls k).
 
+(** * Solver level: an abandoned attempt of the scenario solver leaves no trace
+
+    The by-pod solver tries scenarios one after the other and, inside a scenario, the nodes of the latest
+    potential victim job one at a time: [checkpoint; evict the potential victims that touch the node; simulate;
+    on failure roll back]; a scenario without solution is discarded.  Statement can do all of that correctly and
+    the solver can still use it wrongly (roll back to the wrong checkpoint, keep a statement it reports as
+    abandoned).  What the solver hands to the action is a RESULT - solved?, a statement, the victims - and the
+    clauses below are about that result, evaluated on the real outputs only:
+
+    (0) no solution reported: the session is the session before the call (Discard clause, at solver level);
+    (i) the pods sent to Cache.Evict by the Commit of the returned statement are reported victims, each once,
+        and every reported victim is sent - except a victim that was terminating (Releasing) before the call:
+        the solver reports it (its copy of the pod says Releasing), Statement.Evict leaves it alone;
+    (ii) every pod whose status / node / virtual flag differs after Solve is a reported victim or a pod that was
+        not holding resources and is nominated now (the pending job's pods, pending pods of a victim job):
+        in particular every pod evicted in the session after Solve is a reported victim;
+    (iii) ERASURE: the session after Solve, the calls of the Commit and the session after the Commit are those of
+        the reported scenario applied by hand on a fresh session - whatever attempts were abandoned on the way.
+        Compared: every pod's status, node, virtual flag and GPU groups, the accepted resources of every pod
+        that holds resources, every job's books, every queue's usage and the net amount the allocate /
+        deallocate events carried, every node.  Excluded (the exclusions of the statement-level erasure clause,
+        [finals_same]): the GPU groups recorded in a shared pod that holds nothing (Pending or evicted), and the
+        whole-GPU idle / releasing columns of a node that carries shared work (known finding C14-device-guard:
+        the exposure condition can be met in the middle of a simulation, which no dump shows; flag 1).  The
+        Cache calls are compared as sets of (kind, pod, node, GPU groups): the order of the operations in the
+        solver's statement (potential victims in map order) is not part of the result, and the eviction
+        metadata (message, gang size) of the hand-made evictions is not the solver's. *)
+Definition spk (k : scase) : pcase := sc_k k.
+Definition pods_of_kind (kind : nat) (cs : list xcall) : list positive :=
+  map xc_pod (filter (fun c => Nat.eqb (xc_kind c) kind) cs).
+Definition xcall_key_eqb (a b : xcall) : bool :=
+  Nat.eqb (xc_kind a) (xc_kind b) && Pos.eqb (xc_pod a) (xc_pod b) && opt_pos_eqb (xc_node a) (xc_node b)
+  && list_eqb Pos.eqb (xc_groups a) (xc_groups b).
+Definition calls_same_set (a b : list xcall) : bool :=
+  Nat.eqb (List.length a) (List.length b)
+  && forallb (fun x => existsb (xcall_key_eqb x) b) a && forallb (fun y => existsb (xcall_key_eqb y) a) b.
+(** nodes that carry shared work in a dump *)
+Definition shared_nodes (k : pcase) (d : odump) : list positive :=
+  map fst (filter (fun kv => existsb is_shared (copies k (snd kv))) (od_nodes d)).
+Definition was_releasing (d : odump) (p : positive) : bool :=
+  match pstatus d p with Some v => status_eqb (v_status v) Releasing | None => false end.
+
+(** (0): (restored, restored only modulo the whole-GPU columns of a node with shared work, session after the tries) *)
+Fixpoint tries_restored (k : pcase) (exp : list positive) (prev : odump) (ts : list stry) : bool * bool * odump :=
+  match ts with
+  | [] => (true, false, prev)
+  | t :: r => let '(a, b) := restored2 k exp (st_dump t) prev in
+              let '(ok, q, last) := tries_restored k exp (st_dump t) r in
+              (b && ok, (negb a && b) || q, last)
+  end.
+
+Definition evictions_are_the_victims (base : odump) (sl : ssol) : bool :=
+  let evs := pods_of_kind 1 (sl_calls sl) in
+  nodup_posb evs && subset evs (sl_victims sl)
+  && forallb (fun v => in_pos v evs || was_releasing base v) (sl_victims sl).
+
+Definition only_the_scenario_changed (base : odump) (sl : ssol) : bool :=
+  forallb (fun kv => match pstatus base (fst kv) with
+                     | Some a => negb (touched a (snd kv)) || in_pos (fst kv) (sl_victims sl)
+                                 || (status_eqb (v_status (snd kv)) Pipelined && negb (active_allocated (v_status a)))
+                     | None => false
+                     end) (od_pods (xf_dump (sl_pre sl))).
+
+Definition odumps_same (k : pcase) (exp : list positive) (a b : odump) : bool * list nat :=
+  (pods_same_e k (od_pods a) (od_pods b) && amap_eqb ojob_eqb (od_jobs a) (od_jobs b) && amap_eqb req (od_queues a) (od_queues b),
+   node_classes exp (od_nodes a) (od_nodes b)).
+
+(** (iii): (holds, holds only modulo the whole-GPU columns of a node with shared work) *)
+Definition solver_erasure (k : pcase) (exp : list positive) (sl : ssol) : bool * bool :=
+  let '(r1, c1) := finals_same k exp (sl_pre sl) (sl_hpre sl) in
+  let '(r2, c2) := odumps_same k exp (sl_post sl) (sl_hpost sl) in
+  let ok := r1 && r2 && negb (existsb (Nat.eqb 3) (c1 ++ c2)) && calls_same_set (sl_calls sl) (sl_hcalls sl) in
+  (ok, ok && existsb (Nat.eqb 1) (c1 ++ c2)).
+
+(** (all clauses hold, some restore / comparison held only modulo the whole-GPU columns: flag 1) *)
+Definition solve_monitor (k : scase) : bool * bool :=
+  let pk := spk k in
+  let exp := shared_nodes pk (k_dump0 pk) ++ exposed_nodes pk (k_dump0 pk) in
+  let '(ok0, q0, base) := tries_restored pk exp (k_dump0 pk) (sc_tries k) in
+  match sc_sol k with
+  | None => (ok0, q0)
+  | Some sl =>
+      let '(ok3, q3) := solver_erasure pk exp sl in
+      (ok0 && evictions_are_the_victims base sl && only_the_scenario_changed base sl && ok3, q0 || q3)
+  end.
+
+(** the model on the reported scenario: when the hand-made program is well-formed, the model's run of it from the
+    initial session ends in the dump of the second real session before its Commit, the Commit emits the calls that
+    session emitted and ends in its final dump.  With clause (iii) this ties the session the real solver left to the
+    model's run of the successful attempt alone (Properties/C13.v, [C13_solver_*]). *)
+Definition nofail_r (_ : nat) : bool := false.
+Definition hand_wf (k : scase) : bool :=
+  match sc_sol k with
+  | Some sl => wf_prog nofail_r (k_init (spk k)) (sl_hand sl ++ [Commit])
+  | None => true
+  end.
+Definition solve_agrees (k : scase) : bool :=
+  let pk := spk k in
+  dump_matches (k_init pk) (k_dump0 pk) && keyed_b (k_init pk)
+  && match sc_sol k with
+     | None => true
+     | Some sl =>
+         if negb (hand_wf k) then true else
+         let s1 := Session.run nofail_r (k_init pk) (sl_hand sl) in
+         dump_matches s1 (xf_dump (sl_hpre sl))
+         && (let '(s2, cs, _) := step_full nofail_r s1 Commit in
+             list_match xcall_matches cs (sl_hcalls sl) && dump_matches s2 (sl_hpost sl))
+     end.
+(** flag 1: see above; observation flags (never an alarm): 130 an abandoned attempt of the solved call had evicted a
+    pod that is no reported victim (the shape in which a wrong checkpoint shows); 131 the hand-made program is outside
+    well-formedness (not compared with the model) *)
+Definition solve_flags (k : scase) : list nat :=
+  (if snd (solve_monitor k) then [1%nat] else [])
+  ++ (match sc_sol k with Some sl => match sl_stray sl with [] => [] | _ => [130%nat] end | None => [] end)
+  ++ (if hand_wf k then [] else [131%nat]).
+
+(** ** the real actions end to end
+
+    Whatever scenarios, partial solutions and per-node attempts the action abandoned before (for this pending job and
+    for the ones it could not solve), the session at every Commit and at the end of the action is the session in
+    which only the committed operations were applied - same comparison and exclusions as clause (iii).  The report
+    of the solver is not visible from outside the action, so clauses (i) / (ii) are evaluated in the direct mode
+    only. *)
+Fixpoint commits_same (k : pcase) (exp : list positive) (cs : list acommit) : bool * bool :=
+  match cs with
+  | [] => (true, false)
+  | c :: r =>
+      let '(r1, cl) := odumps_same k exp (ac_pre c) (ac_hpre c) in
+      let ok := r1 && negb (existsb (Nat.eqb 3) cl) && calls_same_set (ac_calls c) (ac_hcalls c) in
+      let '(ok', q) := commits_same k exp r in
+      (ok && ok', (ok && existsb (Nat.eqb 1) cl) || q)
+  end.
+Definition action_monitor (k : acase) : bool * bool :=
+  let pk := ak_k k in
+  let exp := shared_nodes pk (k_dump0 pk) ++ exposed_nodes pk (k_dump0 pk) in
+  let '(ok, q) := commits_same pk exp (ak_commits k) in
+  let '(rf, cf) := odumps_same pk exp (ak_final k) (ak_hfinal k) in
+  (ok && rf && negb (existsb (Nat.eqb 3) cf), q || existsb (Nat.eqb 1) cf).
+Definition action_prog (k : acase) : list cmd := flat_map (fun c => ac_hand c ++ [Commit]) (ak_commits k).
+Definition action_wf (k : acase) : bool := wf_prog nofail_r (k_init (ak_k k)) (action_prog k).
+(** the model on the hand-made programs (when well-formed): the dump before every Commit, its calls, the final dump *)
+Fixpoint action_steps (s : sess) (cs : list acommit) (final : odump) : bool :=
+  match cs with
+  | [] => dump_matches s final
+  | c :: r =>
+      let s1 := Session.run nofail_r s (ac_hand c) in
+      dump_matches s1 (ac_hpre c)
+      && (let '(s2, calls, _) := step_full nofail_r s1 Commit in
+          list_match xcall_matches calls (ac_hcalls c) && action_steps s2 r final)
+  end.
+Definition action_agrees (k : acase) : bool :=
+  let pk := ak_k k in
+  dump_matches (k_init pk) (k_dump0 pk) && keyed_b (k_init pk)
+  && (if action_wf k then action_steps (k_init pk) (ak_commits k) (ak_hfinal k) else true).
+Definition action_flags (k : acase) : list nat :=
+  (if snd (action_monitor k) then [1%nat] else []) ++ (if action_wf k then [] else [131%nat]).
+
 Definition model_agrees (c : case) : bool :=
-  match c with KProg k => prog_agrees k && claims_agree k && stores_agree k | KCycle k => cycle_agrees k end.
+  match c with
+  | KProg k => prog_agrees k && claims_agree k && stores_agree k
+  | KCycle k => cycle_agrees k
+  | KSolve k => solve_agrees k
+  | KAction k => action_agrees k
+  end.
 Definition monitor_ok (c : case) : bool :=
-  match c with KProg k => fst (prog_monitor k) && erasure_ok k && claims_ok k | KCycle k => cycle_once k end.
+  match c with
+  | KProg k => fst (prog_monitor k) && erasure_ok k && claims_ok k
+  | KCycle k => cycle_once k
+  | KSolve k => fst (solve_monitor k)
+  | KAction k => fst (action_monitor k)
+  end.
 (** flag 1: known finding C14-device-guard manifested (a restore, or the two runs of the erasure clause, agree
     only modulo the whole-GPU columns of an exposed node) *)
 Definition flags (c : case) : list nat :=
@@ -740,6 +936,8 @@ Definition flags (c : case) : list nat :=
                 ++ (if existsb (fun st => match os_qraw st with Some _ => true | None => false end) (k_steps k) then [3%nat] else [])
                 ++ (if snd (claims_monitor k) then [] else [120%nat])
   | KCycle k => cycle_flags k
+  | KSolve k => solve_flags k
+  | KAction k => action_flags k
   end.
 Definition run_mismatches (cs : list (nat * case)) : list nat := failing (fun k => negb (model_agrees k)) cs.
 Definition run_monitor (cs : list (nat * case)) : list nat := failing (fun k => negb (monitor_ok k)) cs.
